@@ -701,6 +701,23 @@ class Scripts:
                 self.emit('lora_set_modem_config_2 %d' % r.choice([0x70, 0x90, 0xc0]))
                 self.emit('lora_set_syncword 0x12')
                 self.emit('set_opmod 0 %d' % mod)
+            pre = r.random()
+            if pre < 0.15:
+                # a transmission abandoned in the middle of a long frame, the FIFO flushed, then reception
+                self.emit('set_opmod 1 %d' % mod)
+                self.emit('fsk_ook_tx_set_for_transmission %s' % self.api.bytes_hex(r.randint(70, 200) if variable or fixed_len > 70 else fixed_len))
+                self.emit('set_opmod 3 %d' % mod)
+                self.emit('set_opmod 1 %d' % mod)
+                self.emit('write_register 0x3f 0x10')
+            elif pre < 0.3 and variable and not filt:
+                # a reception abandoned after the first batch of a long packet was read, the FIFO flushed, then reception again
+                self.emit('set_opmod 5 %d' % mod)
+                self.emit('env rxbyte 120')
+                for _ in range(39):
+                    self.emit('env rxbyte %d' % r.randint(0, 255))
+                self.emit('irq')
+                self.emit('set_opmod 1 %d' % mod)
+                self.emit('write_register 0x3f 0x10')
             self.emit('set_opmod 5 %d' % mod)
             for _ in range(r.randint(1, 4)):
                 if variable:
